@@ -85,3 +85,9 @@ claim('C06', 'c06_ownership.c',
       'overwriting and adding map entries) and for new();del() of every class, substring, re-evaluation and setter scenarios, the solver shows that once the caller has deleted what it '
       'was handed no allocation is left, nothing is freed twice or used after free, a container never frees what it handed back, and a map neither frees nor keeps the key and value of the caller.',
       'DESIGN.md section 4, C06')
+claim('C19', 'c19_socket.c',
+      'CBMC check of socket send/recv retry logic and descriptor accounting over syscall stubs: per-call transfer schedules (complete/short/EINTR/EAGAIN) as shapes, payload bytes and every stub outcome symbolic',
+      'For every payload up to the bound and every schedule of short, interrupted and would-block transfers on the first three calls, the solver shows recv returns exactly the bytes '
+      'delivered and send (when it reports success) has handed every byte to the kernel exactly once and in order; for open, accept, close, dup, done, delete and hard write errors - with '
+      'every outcome of socket/bind/listen/connect/accept/dup/close/fcntl chosen by the solver - no descriptor is left open once the socket objects are deleted and no object refers to a closed descriptor.',
+      'DESIGN.md section 4, C19')
